@@ -13,7 +13,7 @@
    all amounts of fuel; `Done` = the run terminated within the fuel.
    No axioms. *)
 From Coq Require Import List Arith.
-From GV Require Import Close.Skel Close.Compile Close.VMclose Close.CompileProofs Close.RefProofs Close.SimProofs.
+From GV Require Import Close.Skel Close.Compile Close.VMclose Close.CompileProofs Close.RefProofs Close.SimProofs Close.Frag Close.Sim.
 Import ListNotations.
 
 (* exactly once: every closable value is closed as often as it was created *)
@@ -94,12 +94,26 @@ Theorem C10_compile_correct_partial : forall b, straight b = true ->
 Proof. exact compile_correct_partial. Qed.
 Print Assumptions C10_compile_correct_partial.
 
-(* On the full language the faithful VM model refutes compile_correct:
-   coroutine.close of a coroutine suspended inside pcall skips the handlers
-   pending inside that pcall. *)
-Theorem C10_compile_correct_coroutine_close_refuted :
-  exists b c, compile b = Some c /\
-    run_ref 50 b [] = Done ([EvOpen 1; EvClose 1 None; EvCo None; EvPcall None], ONormal) /\
-    run_vm 50 c [] = Done ([EvOpen 1; EvCo None; EvPcall None], VReturn).
-Proof. exact compile_correct_coroutine_close_refuted. Qed.
-Print Assumptions C10_compile_correct_coroutine_close_refuted.
+(* compile_correct, stage 2 (_partial): the whole skeleton language except
+   goto/labels, repeat and for-in loops (Frag.fragB): locals of all kinds, do,
+   while with break, if, calls, `return f()` with and without pending closes,
+   nested pcall, coroutines closed while suspended, yield, raise, return, at any
+   nesting depth.  If the program compiles, the close-stack VM on the compiled
+   code yields exactly the reference semantics' events and returns normally.
+   (The premise o = ONormal only excludes a "closed" yield outside any
+   coroutine, which cannot occur from the initial state.) *)
+Theorem C10_compile_correct_nogoto_partial : forall b, fragB b = true ->
+  forall fuel d ev c, run_ref fuel b d = Done (ev, ONormal) -> compile b = Some c ->
+  exists fuel', run_vm fuel' c d = Done (ev, VReturn).
+Proof. exact compile_correct_nogoto_partial. Qed.
+Print Assumptions C10_compile_correct_nogoto_partial.
+
+(* The former refutation witness (coroutine.close of a coroutine suspended
+   inside pcall): with Thread.CallContext repaired, the VM model agrees with the
+   reference semantics on it. *)
+Theorem C10_coroutine_close_through_pcall_closes :
+  exists c, compile coclose_witness = Some c /\
+    run_ref 50 coclose_witness [] = Done ([EvOpen 1; EvClose 1 None; EvCo None; EvPcall None], ONormal) /\
+    run_vm 50 c [] = Done ([EvOpen 1; EvClose 1 None; EvCo None; EvPcall None], VReturn).
+Proof. exact coroutine_close_through_pcall_closes. Qed.
+Print Assumptions C10_coroutine_close_through_pcall_closes.
